@@ -543,12 +543,104 @@ pub fn run(tier: &str) -> i32 {
             }
         }
     }
+    // free-running part: real threads, no scheduler. (a) several clients subscribe to one key at the same instant: each
+    // acknowledged subscription must be there afterwards; (b) one subscriber stays while others churn (watch / unwatch /
+    // unwatch-all on the same key) and a writer writes: the subscriber gets every value once, in order, and the churners
+    // nothing once they have left.
+    let stress_rounds = if thorough { 20_000 } else { 2_500 };
+    let mut stress_stats = (0u64, 0u64);
+    {
+        sched::clear_callback();
+        let (node, _adm) = mem_node(&[("st", "none")]);
+        let dbs = node.dbs.clone();
+        let mut writer = Session::new();
+        writer.call(&dbs, "use-db st tok");
+        'rounds: for r in 0..stress_rounds {
+            let key = format!("sk{}", r);
+            let n = 4;
+            let barrier = std::sync::Barrier::new(n);
+            let mut sessions: Vec<Session> = (0..n).map(|_| { let mut s = Session::new(); s.call(&dbs, "use-db st tok"); s }).collect();
+            std::thread::scope(|sc| {
+                for s in sessions.iter_mut() {
+                    let (dbs, barrier, key) = (&dbs, &barrier, &key);
+                    sc.spawn(move || {
+                        barrier.wait();
+                        s.call_raw(dbs, &format!("watch {}", key));
+                    });
+                }
+            });
+            writer.call(&dbs, &format!("set {} v{}", key, r));
+            stress_stats.0 += 1;
+            for (i, s) in sessions.iter_mut().enumerate() {
+                let got = s.drain();
+                if !got.iter().any(|l| l.trim_end() == format!("changed {} v{}", key, r)) {
+                    v.report(json!({"check": "watch", "problem": "subscription-lost", "detail": "clients-subscribed-at-the-same-instant", "engine": "free-running-threads"}), json!({"round": r, "client": i, "clients": n, "received": got}));
+                    break 'rounds;
+                }
+            }
+            for s in sessions {
+                s.disconnect(&dbs);
+            }
+        }
+        let churn_rounds = stress_rounds / 25;
+        'churn: for r in 0..churn_rounds {
+            let key = format!("ck{}", r);
+            let mut stable = Session::new();
+            stable.call(&dbs, "use-db st tok");
+            stable.call(&dbs, &format!("watch {}", key));
+            let writes = 40;
+            let mut churners: Vec<Session> = (0..2).map(|_| { let mut s = Session::new(); s.call(&dbs, "use-db st tok"); s }).collect();
+            std::thread::scope(|sc| {
+                for (ci, s) in churners.iter_mut().enumerate() {
+                    let (dbs, key) = (&dbs, &key);
+                    sc.spawn(move || {
+                        for j in 0..30 {
+                            s.call_raw(dbs, &format!("watch {}", key));
+                            s.drain();
+                            s.call_raw(dbs, if (j + ci) % 3 == 0 { "unwatch-all".to_string() } else { format!("unwatch {}", key) }.as_str());
+                            s.drain();
+                        }
+                    });
+                }
+                let (dbs, key, writer) = (&dbs, &key, &mut writer);
+                sc.spawn(move || {
+                    for j in 0..writes {
+                        writer.call_raw(dbs, &format!("set {} w{}", key, j));
+                    }
+                });
+            });
+            for s in churners.iter_mut() {
+                s.drain();
+            }
+            writer.call(&dbs, &format!("set {} last", key));
+            stress_stats.1 += 1;
+            let got: Vec<String> = stable.drain().iter().filter(|l| l.starts_with("changed ")).map(|l| l.trim_end().to_string()).collect();
+            let want: Vec<String> = (0..writes).map(|j| format!("changed {} w{}", key, j)).chain(std::iter::once(format!("changed {} last", key))).collect();
+            if got != want {
+                let problem = if got.len() < want.len() { "committed-change-not-notified" } else { "notification-duplicated-or-reordered" };
+                v.report(json!({"check": "watch", "problem": problem, "detail": "subscriber-stays-while-others-churn", "engine": "free-running-threads"}), json!({"round": r, "expected": want.len(), "received": got.len(), "first_difference": got.iter().zip(want.iter()).position(|(a, b)| a != b)}));
+                break 'churn;
+            }
+            for (ci, s) in churners.iter_mut().enumerate() {
+                let late = s.drain();
+                if !late.is_empty() {
+                    v.report(json!({"check": "watch", "problem": "notified-after-unsubscribing", "context": "churning-client", "engine": "free-running-threads"}), json!({"round": r, "client": ci, "received": late}));
+                    break 'churn;
+                }
+            }
+            stable.disconnect(&dbs);
+            for s in churners {
+                s.disconnect(&dbs);
+            }
+        }
+    }
     let st = stats.into_inner().unwrap();
     ev.evaluations = st.runs;
     ev.distinct_nontrivial = st.nontrivial.len() as u64;
     ev.rule = format!("{} generated client mixes (3-4 clients x 2-4 ops; writers: set / set-safe accepted+refused / increment / remove, admin link: replicate / replicate-remove / replicate-increment; others: watch / unwatch / unwatch-all / disconnect on keys a,b,n) x {} seeded token-passing schedules (random + PCT), followed by a sequential probe write per key; distinct = hash of the (thread,site,call,return) sequence; non-trivial = distinct schedules in which a mutation of a key overlaps the start or the end of some client's subscription to that key", cases, per_case);
     ev.samples = st.samples.clone();
     ev.set("repeated_watch_cases", json!(rewatch_cases));
+    ev.set("free_running_rounds", json!({"clients_subscribing_at_the_same_instant": stress_stats.0, "subscriber_stays_while_others_churn": stress_stats.1}));
     ev.set("distinct_schedules", json!(st.distinct.len()));
     ev.set("mutations_observed", json!(st.mutations));
     ev.set("notifications_observed", json!(st.notifications));
